@@ -224,8 +224,8 @@ theorem power_numLike {x y : S} {a b : Rat} (hx : NumLike x a) (hy : NumLike y b
   obtain ⟨m, hm, hmb⟩ := hy.toNumber
   have hfe : firstErr x y = none := by simp [firstErr, hx.isErr, hy.isErr]
   have hint : Num.isIntegral m = true := by simp [Num.isIntegral, hmb, hb]
-  simp only [Model.Value.power, hfe, hn, hm, OpR.ofNum, Spec.C01.power, hb, ne_eq, not_true_eq_false, if_false,
-    hna, hmb, h00]
+  simp only [Model.Value.power, hx.isErr, hy.isErr, hn, hm, OpR.ofNum, Spec.C01.power, hb, ne_eq,
+    not_true_eq_false, if_false, hna, hmb, h00]
   by_cases h0 : a = 0 ∧ b < 0
   · simp [h0, Agree]
   · simp only [h0, if_false, hint, not_true_eq_false, and_false, if_true]
@@ -484,10 +484,20 @@ theorem evalAst_neg (hT : OpFuncOK Gen.infixOpToFunc Gen.prefixOpToFunc) (m : Mo
 theorem opFun_err_left (o : Spec.C02.BinOp) (c : Code) (y : S) : opFun o (.err c) y = .val (.err c) := by
   cases o <;> simp [opFun, binop, Model.Value.power, Model.Value.concat, firstErr, Model.Value.isErr]
 
-theorem opFun_err_right (o : Spec.C02.BinOp) (x : S) (c : Code) (hx : Model.Value.isErr x = none) :
+theorem opFun_err_right (o : Spec.C02.BinOp) (x : S) (c : Code) (hx : Model.Value.isErr x = none)
+    (hp : o = .pow → ∃ n, toNumber ext0 x = .ok n) :
     opFun o x (.err c) = .val (.err c) := by
   have hfe : firstErr x (.err c) = some c := by unfold firstErr; rw [hx]; rfl
-  cases o <;> simp only [opFun, binop, Model.Value.power, Model.Value.concat, hfe]
+  cases o
+  case pow =>
+    obtain ⟨n, hn⟩ := hp rfl
+    simp only [opFun, Model.Value.power, hx, hn, OpR.ofNum]
+    rfl
+  all_goals simp only [opFun, binop, Model.Value.concat, hfe]
+
+theorem opFun_err_right_np (x : S) (c : Code) (hx : Model.Value.isErr x = none) :
+    ∀ o : Spec.C02.BinOp, o ≠ .pow → opFun o x (.err c) = .val (.err c) :=
+  fun o ho => opFun_err_right o x c hx (fun h => absurd h ho)
 
 theorem eval_ref (m : Model.C01.Env) (s : Spec.C01.Env) (henv : EnvOK m s) (r : Ref) (hwf : r.WF)
     (hs : r.sheet = .none) (hl : r.last = none) :
@@ -690,7 +700,7 @@ theorem arith_case (f : Rat → Rat → Res) (o : Spec.C02.BinOp) (vl vr : Res) 
       have := agree_err har
       cases this
       have h2 : arith2 f vl (.err c) = .err c := by unfold arith2; rw [hta]; rfl
-      rw [h2, opFun_err_right o x c hx.isErr]
+      rw [h2, opFun_err_right o x c hx.isErr (fun _ => by obtain ⟨n, hn, _⟩ := hx.toNumber; exact ⟨n, hn⟩)]
       simp [Agree]
   · have := agree_err hal
     cases this
@@ -818,7 +828,7 @@ theorem eval_denote (hT : OpFuncOK Gen.infixOpToFunc Gen.prefixOpToFunc) (m : Mo
         | undef => rw [hcl, hcr] at hu; simp [Spec.C01.concat] at hu
         | err c' =>
           rw [hx, hsr.2 c' hcr]
-          simp [seq2, Spec.C01.concat, opFun_err_right _ x c' hxe, Agree]
+          simp [seq2, Spec.C01.concat, opFun_err_right .cat x c' hxe (by intro h; cases h), Agree]
         | text t' =>
           obtain ⟨y, hy, hys, hye⟩ := hsr.1 t' hcr
           rw [hx, hy]
@@ -853,7 +863,9 @@ theorem eval_denote (hT : OpFuncOK Gen.infixOpToFunc Gen.prefixOpToFunc) (m : Mo
           cases this
           obtain ⟨n, hn, _⟩ := agree_num hal
           cases hn
-          simp [Spec.C01.compare, opFun_err_right _ (S.num n) c rfl, Agree]
+          rw [opFun_err_right_np (S.num n) c rfl]
+          · simp [Spec.C01.compare, Agree]
+          · decide
         | num q' =>
           rw [hdl] at hal; rw [hdr] at har
           exact compare_ordered _ rfl (ordered_of_agree hal (Or.inl ⟨_, rfl⟩)) (ordered_of_agree har (Or.inl ⟨_, rfl⟩))
@@ -874,7 +886,9 @@ theorem eval_denote (hT : OpFuncOK Gen.infixOpToFunc Gen.prefixOpToFunc) (m : Mo
           cases this
           have := agree_text hal
           cases this
-          simp [Spec.C01.compare, opFun_err_right _ (S.text t) c rfl, Agree]
+          rw [opFun_err_right_np (S.text t) c rfl]
+          · simp [Spec.C01.compare, Agree]
+          · decide
         | num q' =>
           rw [hdl] at hal; rw [hdr] at har
           exact compare_ordered _ rfl (ordered_of_agree hal (Or.inr (Or.inl ⟨_, rfl⟩)))
@@ -896,7 +910,9 @@ theorem eval_denote (hT : OpFuncOK Gen.infixOpToFunc Gen.prefixOpToFunc) (m : Mo
           cases this
           have := agree_bool hal
           cases this
-          simp [Spec.C01.compare, opFun_err_right _ (S.bool b') c rfl, Agree]
+          rw [opFun_err_right_np (S.bool b') c rfl]
+          · simp [Spec.C01.compare, Agree]
+          · decide
         | num q' =>
           rw [hdl] at hal; rw [hdr] at har
           exact compare_ordered _ rfl (ordered_of_agree hal (Or.inr (Or.inr ⟨_, rfl⟩)))
